@@ -482,9 +482,7 @@ func (r *renderer) stmts(ss []Stmt, width int, scope string, counter *int) []*no
 			d := r.decl(kPlain, path, []string{path}, show)
 			n := &node{Kind: kPlain, Key: d.Key}
 			if s.Dot {
-				n.First = r.tok(".")
-				r.ogap(" ")
-				r.tok("<-")
+				n.First = r.tok(". <-") // one token: a dot, at least one blank, the arrow
 			} else {
 				parts := strings.Split(s.Kw, " :: ")
 				for i, p := range parts {
@@ -501,8 +499,20 @@ func (r *renderer) stmts(ss []Stmt, width int, scope string, counter *int) []*no
 				r.ogap(" ")
 				r.tok("<-")
 			}
-			r.ogap(" ")
-			n.Last = r.tok(s.Text)
+			// the callee is lexed in ARGS mode: one token from the end of the arrow up to '[' / end of line, whose
+			// TEXT is trimmed; after ". <-" (which, unlike "<-", does not swallow the blanks behind it) the token
+			// therefore starts at the blanks but is only as long as the name
+			if s.Dot {
+				lead := " "
+				if !r.opts.plain {
+					lead = []string{" ", " ", "  ", "\t", " \t "}[r.lay.Intn(5)]
+				}
+				n.Last = r.tok(lead + s.Text)
+				r.cur[len(r.cur)-1].L = len(s.Text)
+			} else {
+				r.ogap(" ")
+				n.Last = r.tok(s.Text)
+			}
 			if len(s.Attrs) > 0 {
 				r.gap()
 				n.Attrs = r.attribs(s.Attrs, []string{path}, nil)
@@ -513,8 +523,13 @@ func (r *renderer) stmts(ss []Stmt, width int, scope string, counter *int) []*no
 			d := r.decl(kPlain, path, []string{path}, "return "+s.Text)
 			n := &node{Kind: kPlain, Key: d.Key}
 			n.First = r.tok("return")
-			n.Last = r.tok(" " + s.Text) // the payload token starts right after the keyword
-			r.end(false)
+			// the payload token (TEXT) runs from the keyword to the end of the line, trailing blanks included
+			trail := ""
+			if !r.opts.plain && r.lay.Chance(1, 8) {
+				trail = strings.Repeat(" ", 1+r.lay.Intn(3))
+			}
+			n.Last = r.tok(" " + s.Text + trail)
+			r.nl()
 			out = append(out, n)
 		case sIf, sElse, sLoop, sGroup:
 			var kw string
